@@ -139,7 +139,8 @@ def unwrap_async(hir):
     """async fn body = closure(Coroutine...)(block([let a = a;...], real_block)). Returns the real body."""
     if tag(hir) == "closure" and "Coroutine" in hir[1]:
         body = hir[3]
-        if tag(body) == "block" and body[2] is not None:
+        # async fn: { let <params> = <params>; <real block> };  async block: the block itself
+        if ", Fn)" in hir[1] and tag(body) == "block" and body[2] is not None:
             return body[2]
         return body
     return hir
